@@ -195,7 +195,7 @@ class ScenarioInterp(Interp):
             eqs = [self.inputs[k] == v for k, v in hint.items() if k in self.inputs]
             r = self.ctx.check(z3.And(*eqs)) if eqs else r
         self.result.covers[label] = (r == 'sat')
-        if r == 'sat' and label not in self.result.witnesses and getattr(self, '_wit_req', None) is None:
+        if r == 'sat' and ('%s' % label) not in self.result.witnesses and getattr(self, '_wit_req', None) is None:
             # a concrete witness of this path is taken when the path ends (all observables registered): see finish_witness
             self._wit_req = (label, hint)
 
